@@ -732,6 +732,15 @@ def add_defs(body, local):
                                 back = True
                     if back or tmp == local:
                         out.append((b, other))
+    # `local += &x` through the operator trait (x: &usize)
+    for b in range(body.n):
+        t = body.term(b)
+        if t and t["k"] == "call" and not body.blocks[b]["cleanup"] and (t["func"].get("declared") or "") == "std::ops::AddAssign::add_assign" and len(t["args"]) == 2:
+            a0 = t["args"][0]
+            if a0["k"] in ("copy", "move"):
+                for d in body.defs().get(a0["place"]["l"], []):
+                    if d[0] == "assign" and d[3]["rv"]["k"] == "ref" and d[3]["rv"]["place"]["l"] == local and not d[3]["rv"]["place"]["p"]:
+                        out.append((b, t["args"][1]))
     return out
 
 
